@@ -2,8 +2,9 @@
    (Arc.point, Arc.derivative at n = 1..8, centeriso, icenteriso, u1transform)
    agree with the hand-written model Model/Arc.v.  Recompiled on every check
    run, lemma by lemma (split on the AGREE markers).
-   Arc._parameterize (assigns to attributes of self) and Arc.derivative with a symbolic n
-   (power with exponent n) are outside the translator's subset: correspondence only. *)
+   Arc._parameterize (assigns to attributes of self) and Arc.derivative with a
+   symbolic n (power with exponent n) are outside the translator's subset:
+   correspondence only. *)
 From Coq Require Import ZArith List Bool Field.
 From SVP Require Import Base.Num Base.Cplx Base.Poly Base.FieldTac Base.Agree Model.Arc.
 From SVP Require Import Gen.GenArc.
@@ -11,86 +12,72 @@ Import ListNotations.
 Section A.
 Context {K : Type} (N : Num K) (T : NumT K) (OK : NumFieldOK N).
 Add Field KF : (Fth OK).
-Variables (start radius : Cplx K) (rotation : K) (large sweep : bool) (end_ center : Cplx K)
-          (theta delta phi : K) (rot : Cplx K).
-Let P := mkArcP start radius rotation large sweep end_ center theta delta phi rot.
 Ltac agree_arc :=
-  intros; unfold P; destruct_cplx_vars;
+  intros; destruct_cplx_vars;
   cbv -[add sub mul div opp inv zero one eqb ltb leb
         sqrt_ cos_ sin_ tan_ acos_ asin_ atan_ ln_ pi_ hypot_ radians_ degrees_];
   split_struct; try reflexivity; try ring.
 (* HEADER END *)
 
+
 (* AGREE gen_Arc_point *)
-Lemma agree_Arc_point t :
-  gen_Arc_point N T start radius rotation large sweep end_ center theta delta phi rot t
-  = arc_point N T P t.
+Lemma agree_Arc_point (start radius : Cplx K) (rotation : K) (large sweep : bool) (end_ center : Cplx K) (theta delta phi : K) (rot : Cplx K) t :
+  gen_Arc_point N T start radius rotation large sweep end_ center theta delta phi rot t = arc_point N T (mkArcP start radius rotation large sweep end_ center theta delta phi rot) t.
 Proof. agree_arc. Qed.
 (* AGREE gen_Arc_derivative_1 *)
-Lemma agree_Arc_derivative_1 t :
-  gen_Arc_derivative_1 N T start radius rotation large sweep end_ center theta delta phi rot t
-  = arc_deriv N T P t 1.
+Lemma agree_Arc_derivative_1 (start radius : Cplx K) (rotation : K) (large sweep : bool) (end_ center : Cplx K) (theta delta phi : K) (rot : Cplx K) t :
+  gen_Arc_derivative_1 N T start radius rotation large sweep end_ center theta delta phi rot t = arc_deriv N T (mkArcP start radius rotation large sweep end_ center theta delta phi rot) t 1.
 Proof. agree_arc. Qed.
 (* AGREE gen_Arc_derivative_2 *)
-Lemma agree_Arc_derivative_2 t :
-  gen_Arc_derivative_2 N T start radius rotation large sweep end_ center theta delta phi rot t
-  = arc_deriv N T P t 2.
+Lemma agree_Arc_derivative_2 (start radius : Cplx K) (rotation : K) (large sweep : bool) (end_ center : Cplx K) (theta delta phi : K) (rot : Cplx K) t :
+  gen_Arc_derivative_2 N T start radius rotation large sweep end_ center theta delta phi rot t = arc_deriv N T (mkArcP start radius rotation large sweep end_ center theta delta phi rot) t 2.
 Proof. agree_arc. Qed.
 (* AGREE gen_Arc_derivative_3 *)
-Lemma agree_Arc_derivative_3 t :
-  gen_Arc_derivative_3 N T start radius rotation large sweep end_ center theta delta phi rot t
-  = arc_deriv N T P t 3.
+Lemma agree_Arc_derivative_3 (start radius : Cplx K) (rotation : K) (large sweep : bool) (end_ center : Cplx K) (theta delta phi : K) (rot : Cplx K) t :
+  gen_Arc_derivative_3 N T start radius rotation large sweep end_ center theta delta phi rot t = arc_deriv N T (mkArcP start radius rotation large sweep end_ center theta delta phi rot) t 3.
 Proof. agree_arc. Qed.
 (* AGREE gen_Arc_derivative_4 *)
-Lemma agree_Arc_derivative_4 t :
-  gen_Arc_derivative_4 N T start radius rotation large sweep end_ center theta delta phi rot t
-  = arc_deriv N T P t 4.
+Lemma agree_Arc_derivative_4 (start radius : Cplx K) (rotation : K) (large sweep : bool) (end_ center : Cplx K) (theta delta phi : K) (rot : Cplx K) t :
+  gen_Arc_derivative_4 N T start radius rotation large sweep end_ center theta delta phi rot t = arc_deriv N T (mkArcP start radius rotation large sweep end_ center theta delta phi rot) t 4.
 Proof. agree_arc. Qed.
 (* AGREE gen_Arc_derivative_5 *)
-Lemma agree_Arc_derivative_5 t :
-  gen_Arc_derivative_5 N T start radius rotation large sweep end_ center theta delta phi rot t
-  = arc_deriv N T P t 5.
+Lemma agree_Arc_derivative_5 (start radius : Cplx K) (rotation : K) (large sweep : bool) (end_ center : Cplx K) (theta delta phi : K) (rot : Cplx K) t :
+  gen_Arc_derivative_5 N T start radius rotation large sweep end_ center theta delta phi rot t = arc_deriv N T (mkArcP start radius rotation large sweep end_ center theta delta phi rot) t 5.
 Proof. agree_arc. Qed.
 (* AGREE gen_Arc_derivative_6 *)
-Lemma agree_Arc_derivative_6 t :
-  gen_Arc_derivative_6 N T start radius rotation large sweep end_ center theta delta phi rot t
-  = arc_deriv N T P t 6.
+Lemma agree_Arc_derivative_6 (start radius : Cplx K) (rotation : K) (large sweep : bool) (end_ center : Cplx K) (theta delta phi : K) (rot : Cplx K) t :
+  gen_Arc_derivative_6 N T start radius rotation large sweep end_ center theta delta phi rot t = arc_deriv N T (mkArcP start radius rotation large sweep end_ center theta delta phi rot) t 6.
 Proof. agree_arc. Qed.
 (* AGREE gen_Arc_derivative_7 *)
-Lemma agree_Arc_derivative_7 t :
-  gen_Arc_derivative_7 N T start radius rotation large sweep end_ center theta delta phi rot t
-  = arc_deriv N T P t 7.
+Lemma agree_Arc_derivative_7 (start radius : Cplx K) (rotation : K) (large sweep : bool) (end_ center : Cplx K) (theta delta phi : K) (rot : Cplx K) t :
+  gen_Arc_derivative_7 N T start radius rotation large sweep end_ center theta delta phi rot t = arc_deriv N T (mkArcP start radius rotation large sweep end_ center theta delta phi rot) t 7.
 Proof. agree_arc. Qed.
 (* AGREE gen_Arc_derivative_8 *)
-Lemma agree_Arc_derivative_8 t :
-  gen_Arc_derivative_8 N T start radius rotation large sweep end_ center theta delta phi rot t
-  = arc_deriv N T P t 8.
+Lemma agree_Arc_derivative_8 (start radius : Cplx K) (rotation : K) (large sweep : bool) (end_ center : Cplx K) (theta delta phi : K) (rot : Cplx K) t :
+  gen_Arc_derivative_8 N T start radius rotation large sweep end_ center theta delta phi rot t = arc_deriv N T (mkArcP start radius rotation large sweep end_ center theta delta phi rot) t 8.
 Proof. agree_arc. Qed.
 (* AGREE gen_Arc_icenteriso *)
-Lemma agree_Arc_icenteriso zeta :
-  gen_Arc_icenteriso N start radius rotation large sweep end_ center theta delta phi rot zeta
-  = arc_icenteriso N P zeta.
+Lemma agree_Arc_icenteriso (start radius : Cplx K) (rotation : K) (large sweep : bool) (end_ center : Cplx K) (theta delta phi : K) (rot : Cplx K) zeta :
+  gen_Arc_icenteriso N start radius rotation large sweep end_ center theta delta phi rot zeta = arc_icenteriso N (mkArcP start radius rotation large sweep end_ center theta delta phi rot) zeta.
 Proof. agree_arc. Qed.
 (* AGREE gen_Arc_centeriso *)
 (* 1/rot_matrix: the code divides (CPython's quotient), the model uses the
    mathematical quotient; they agree in a field when |rot_matrix|^2 <> 0 *)
-Lemma agree_Arc_centeriso z :
+Lemma agree_Arc_centeriso (start radius : Cplx K) (rotation : K) (large sweep : bool) (end_ center : Cplx K) (theta delta phi : K) (rot : Cplx K) z :
   add N (mul N (fst rot) (fst rot)) (mul N (snd rot) (snd rot)) <> zero N ->
-  gen_Arc_centeriso N start radius rotation large sweep end_ center theta delta phi rot z
-  = arc_centeriso N P z.
+  gen_Arc_centeriso N start radius rotation large sweep end_ center theta delta phi rot z = arc_centeriso N (mkArcP start radius rotation large sweep end_ center theta delta phi rot) z.
 Proof.
-  intros Hn. unfold P. destruct_cplx_vars.
+  intros Hn. destruct_cplx_vars.
   cbv -[add sub mul div opp inv zero one] in *.
   f_equal; field; exact Hn.
 Qed.
 (* AGREE gen_Arc_u1transform *)
-Lemma agree_Arc_u1transform z :
+Lemma agree_Arc_u1transform (start radius : Cplx K) (rotation : K) (large sweep : bool) (end_ center : Cplx K) (theta delta phi : K) (rot : Cplx K) z :
   add N (mul N (fst rot) (fst rot)) (mul N (snd rot) (snd rot)) <> zero N ->
   fst radius <> zero N -> snd radius <> zero N ->
-  gen_Arc_u1transform N start radius rotation large sweep end_ center theta delta phi rot z
-  = arc_u1transform N P z.
+  gen_Arc_u1transform N start radius rotation large sweep end_ center theta delta phi rot z = arc_u1transform N (mkArcP start radius rotation large sweep end_ center theta delta phi rot) z.
 Proof.
-  intros Hn Hx Hy. unfold P. destruct_cplx_vars.
+  intros Hn Hx Hy. destruct_cplx_vars.
   cbv -[add sub mul div opp inv zero one] in *.
   f_equal; field; split; assumption.
 Qed.
